@@ -517,3 +517,29 @@ F("K15", "C11", EC, "        res = self.BatchDouble(res)\n        res = self.Bat
 F("K16", "C11", EC, "        multiplier = (s >> i) & mask", "        multiplier = (s >> (i + 1)) & mask", "R-C11-COMB", "comb: shift off by one")
 T("K17", "C11", EC, "    window_size = 8\n", "    window_size = 4\n", "comb: a different window size is still a correct comb")
 T("K18", "C11", EC, "        res = self.BatchDouble(res)\n        res = self.BatchAddList(res, points)", "        doubled = self.BatchDouble(res)\n        res = self.BatchAddList(points, doubled)", "comb: temporaries / commuted add")
+
+# ---------------------------------------------------------------------------------- C14 Berlekamp-Massey refinement (round 2)
+F("K20", "C14", BM, "      sc ^= sb\n  return deg_c", "      sc ^= sb\n    elif m == 64:\n      sb >>= m\n      sc >>= m\n      m = 0\n  return deg_c", "R-C14-BM", "BM: low word dropped from sb as well (seed r2)")
+T("K21", "C14", BM, "      sc ^= sb\n  return deg_c", "      sc ^= sb\n    elif m == 64:\n      sc >>= m\n      m = 0\n  return deg_c", "BM: consumed zero bits of sc dropped (harmless)")
+F("K22", "C14", BM, "      if 2 * deg_c <= n:", "      if 2 * deg_c < n:", "R-C14-BM", "BM: length change threshold strict")
+F("K23", "C14", BM, "        deg_c = n + 1 - deg_c", "        deg_c = n - deg_c", "R-C14-BM", "BM: new length off by one")
+F("K24", "C14", BM, "    disc = sc & (1 << m)\n    m += 1\n    if disc:\n      sc >>= m", "    disc = sc & (1 << m)\n    if disc:\n      sc >>= m\n    m += 1\n    if disc:", "R-C14-BM", "BM: shift by m instead of m+1")
+F("K25", "C14", BM, "        sb, sc = sc, sb\n        deg_c = n + 1 - deg_c\n      sc ^= sb", "        sb, sc = sc, sb\n        deg_c = n + 1 - deg_c\n      else:\n        sc ^= sb", "R-C14-BM", "BM: no update of C on a length change")
+F("K26", "C14", BM, "  for n in range(length):\n    disc", "  for n in range(length - 1):\n    disc", "R-C14-BM", "BM: last bit ignored")
+T("K27", "C14", BM, "    disc = sc & (1 << m)\n    m += 1\n    if disc:", "    disc = (sc >> m) & 1\n    m += 1\n    if disc == 1:", "BM: discrepancy bit extracted by shift-and-mask")
+T("K28", "C14", BM, "        sb, sc = sc, sb\n        deg_c = n + 1 - deg_c\n      sc ^= sb", "        tmp = sc\n        sc = sb ^ sc\n        sb = tmp\n        deg_c = n - deg_c + 1\n      else:\n        sc = sc ^ sb",
+  "BM: swap through a temporary")
+
+# ---------------------------------------------------------------------------------- C19 Bias statistic (round 2)
+LSU = L + "randomness_tests/lattice_suite.py"
+F("K31", "C19", LSU, "  p_value = util.UniformSumCdf(len(sample) * len(transforms), normalized)", "  p_value = util.UniformSumCdf(len(sample), normalized)", "R-C19-BIAS", "Bias: summand count ignores the transforms")
+F("K32", "C19", LSU, "      v = min(v, n - v)", "      v = min(v, n + v)", "R-C19-BIAS", "Bias: distance to the nearest multiple broken")
+F("K33", "C19", LSU, "  normalized = 2 * t / n", "  normalized = t / n", "R-C19-BIAS", "Bias: normalisation factor")
+ROWS.append({"id": "K34", "prop": "C19", "expect": "fire", "rule": "R-C19-BIAS", "what": "Bias: counter incremented per sample only (seed r2)", "edits": [
+    {"file": LSU, "old": "  t = 0\n  for s in sample:\n", "new": "  t = 0\n  count = 0\n  for s in sample:\n    count += 1\n"},
+    {"file": LSU, "old": "util.UniformSumCdf(len(sample) * len(transforms), normalized)", "new": "util.UniformSumCdf(count, normalized)"}]})
+ROWS.append({"id": "K35", "prop": "C19", "expect": "silent", "what": "Bias: counter incremented per term", "edits": [
+    {"file": LSU, "old": "  t = 0\n  for s in sample:\n", "new": "  t = 0\n  count = 0\n  for s in sample:\n"},
+    {"file": LSU, "old": "      t += v\n", "new": "      t += v\n      count += 1\n"},
+    {"file": LSU, "old": "util.UniformSumCdf(len(sample) * len(transforms), normalized)", "new": "util.UniformSumCdf(count, normalized)"}]})
+T("K36", "C19", LSU, "      v = (a * s + b) % n\n      v = min(v, n - v)\n      t += v", "      r = (b + s * a) % n\n      t += min(n - r, r)", "Bias: renamed temporaries, commuted")
